@@ -164,6 +164,16 @@ CLAIMED = {
              'stand-in; the reloader process is out of reach.',
         technique='contract-based deductive verification (pyvc + z3) + source-level T obligations',
         design_ref='DESIGN.md 7 C20'),
+    'C18': dict(
+        text='Deductive verification of get_resource_info (inductive list predicate: every entry whose key contains '
+             '"secret" carries the constant marker, i.e. its value term is independent of the resource value, for every '
+             'resource map), of SignedCookieMiddleware.__repr__ (the result term shares no symbol with secret_key: '
+             'non-interference), and of MetaApplication.get_main (no exception of a peripheral escapes, for every list of '
+             'peripherals).',
+        note='ashes escaping and JSON rendering assumed; render_main_page_html and the per-route info functions are '
+             'covered by a native page check (bounded stand-in) only; user middleware reprs are outside the statement.',
+        technique='contract-based deductive verification (pyvc + z3): term-dependence (non-interference) and '
+                  'exception-containment obligations', design_ref='DESIGN.md 7 C18'),
 }
 
 REASONS = {}
